@@ -41,6 +41,7 @@ def _excepted(f, name):
 def run_U(chk, prefixes, rule1="U1", rule2="U2", floor1=40, floor2=10):
     prog = chk.prog
     run_U4(chk, prefixes, floor=max(1, floor1))
+    run_U5(chk, prefixes)
     chk.rule(rule1, "every parameter is read by the function that declares it (nothing the caller supplies is silently ignored)", floor=floor1)
     chk.rule(rule2, "every name bound by unpacking a tuple is read", floor=floor2)
     for f in prog.all_funcs():
@@ -182,6 +183,81 @@ def run_U4(chk, prefixes, floor=20):
             chk.bad("U4", (f, c), f"{f.short}: {A.short(c, 60)}",
                     f"{f.short}(): `{A.short(c, 70)}` passes the caller's `{q}` for {cname}()'s parameter `{p}` and its `{p}` for `{q}`: the two "
                     f"arguments are exchanged (for a sesquilinear / non-commutative callee the result is the conjugate / transposed one)")
+
+
+# ------------------------------------------------------------------ U5 option-resolving self-delegation
+_U5_FIXTURE = """
+def to_dict(a, level=2, meta=None, resolve_ops=False):
+    if resolve_ops:
+        return a.consume_transpose().to_dict(level=level, resolve_ops=False)
+    return {}
+"""
+
+
+def _self_delegations(fn):
+    """`if <P>: return <recv>.F(..., P=<const>)` (or plain `F(...)`) inside F: the option P is resolved by transforming the receiver and
+    calling F again with the option switched off.  -> [(call, option, missing parameters, changed parameters)]"""
+    a = fn.args
+    params = [x.arg for x in a.posonlyargs + a.args + a.kwonlyargs]
+    if not params:
+        return []
+    par = A.enclosing_map(fn)
+    out = []
+    for r in A.walk_local(fn, include_self=False):
+        if not (isinstance(r, ast.Return) and isinstance(r.value, ast.Call)):
+            continue
+        c = r.value
+        method = isinstance(c.func, ast.Attribute) and c.func.attr == fn.name
+        plain = isinstance(c.func, ast.Name) and c.func.id == fn.name
+        if not (method or plain) or any(isinstance(x, ast.Starred) for x in c.args) or any(k.arg is None for k in c.keywords):
+            continue
+        if method:
+            root = c.func.value
+            while isinstance(root, (ast.Attribute, ast.Call)):
+                root = root.func if isinstance(root, ast.Call) else root.value
+            if not (isinstance(root, ast.Name) and root.id == params[0]):
+                continue
+            rest = params[1:]
+        else:
+            rest = params
+        given = dict(zip(rest, c.args))
+        given.update({k.arg: k.value for k in c.keywords})
+        consts = [p_ for p_, v in given.items() if p_ in rest and isinstance(v, ast.Constant)]
+        guard = par.get(r)
+        if not (isinstance(guard, ast.If) and r in guard.body):
+            continue
+        tested = {x.id for x in ast.walk(guard.test) if isinstance(x, ast.Name)}
+        opts = [p_ for p_ in consts if p_ in tested] or [p_ for p_ in rest if p_ in tested and p_ not in given]
+        if not opts or not (isinstance(guard.test, ast.Name) or (isinstance(guard.test, ast.UnaryOp) and isinstance(guard.test.operand, ast.Name))):
+            continue
+        missing = [p_ for p_ in rest if p_ not in given and p_ not in opts]
+        changed = [p_ for p_ in rest if p_ in given and p_ not in opts and not (isinstance(given[p_], ast.Name) and given[p_].id == p_)]
+        out.append((c, opts[0], missing, changed))
+    return out
+
+
+def run_U5(chk, prefixes, rule="U5"):
+    """An option handled by `if opt: return transform(self).f(..., opt=False)` must hand every *other* argument on unchanged: the
+    second call does all the work, and whatever is not forwarded silently falls back to its default for exactly the callers that
+    use the option."""
+    prog = chk.prog
+    chk.rule(rule, "an option resolved by self-delegation (`if opt: return f'(self).f(..., opt=<const>)`) forwards every other parameter unchanged", floor=0)
+    fx = [n for n in ast.parse(_U5_FIXTURE).body if isinstance(n, ast.FunctionDef)][0]
+    got = _self_delegations(fx)
+    if not (len(got) == 1 and got[0][1] == "resolve_ops" and got[0][2] == ["meta"]):
+        raise AnalysisError("U5: the built-in positive fixture is not recognised (rule broken)")
+    for f in prog.all_funcs():
+        if not f.module.name.startswith(tuple(prefixes)) or "torch" in f.module.name:
+            continue
+        if f.name not in A.text(f.node)[len(f.name) + 4:]:
+            continue
+        for c, opt, missing, changed in _self_delegations(f.node):
+            if missing or changed:
+                chk.bad(rule, (f, c), c, f"{f.short}(): the option `{opt}` is resolved by calling {f.name}() again, but "
+                        + (f"`{', '.join(missing)}` is not forwarded" if missing else f"`{', '.join(changed)}` is replaced by another value")
+                        + f": with `{opt}` set, the caller's value is ignored and the default is used instead")
+            else:
+                chk.ok(rule, (f, c), f"{f.short}: `{A.short(c, 60)}` forwards all parameters", sample=True)
 
 
 # ------------------------------------------------------------------ U3 local memo keys
